@@ -78,8 +78,10 @@ def apply_extras(scn, doc):
         scn.exploits[name]["req_access"] = lvl
 
 
-def make_env(scn, fully_obs=False, flat_actions=True, flat_obs=True):
+def make_env(scn, fully_obs=False, flat_actions=True, flat_obs=True, render_mode=None):
     from nasim.envs import NASimEnv
+    if render_mode is not None:
+        return NASimEnv(scn, fully_obs=fully_obs, flat_actions=flat_actions, flat_obs=flat_obs, render_mode=render_mode)
     return NASimEnv(scn, fully_obs=fully_obs, flat_actions=flat_actions,
                     flat_obs=flat_obs)
 
@@ -139,8 +141,8 @@ def gen_params(draw, max_hosts=12, max_services=5, small=True):
         p["r_sensitive"] = draw(st.sampled_from([10, 100, 1, 0.5, 7.25]))
         p["r_user"] = draw(st.sampled_from([10, 100, 1, 0.5, 3]))
     if draw(st.booleans()):
-        p["exploit_cost"] = draw(st.sampled_from([1, 2, 0.5, 3.25]))
-        p["privesc_cost"] = draw(st.sampled_from([1, 2, 0.5, 1.5]))
+        p["exploit_cost"] = draw(st.sampled_from([1, 2, 0.5, 3.25, 0.125, 1.004]))
+        p["privesc_cost"] = draw(st.sampled_from([1, 2, 0.5, 1.5, 0.375]))
         p["service_scan_cost"] = draw(st.sampled_from([1, 0, 2, 0.5, 0.3]))
         p["os_scan_cost"] = draw(st.sampled_from([1, 0, 2, 0.25, 0.7]))
         p["subnet_scan_cost"] = draw(st.sampled_from([1, 0, 3, 0.5, 0.3, 0.1]))
